@@ -539,7 +539,17 @@ func (cr *checkRun) discharge(j *OblResult) {
 			if qs[i].abs != "" {
 				fa = writeQuery(o.WorkDir, fmt.Sprintf("%s-p%d-abs", j.Name, i), qs[i].abs)
 			}
-			r = SolveHard(f, fa, o.Timeout, o.Seed)
+			to := o.Timeout
+			if ex.contract != nil {
+				// a contract may ask for more time for its own obligations (slow but stable queries): option timeout N
+				if v, ok := ex.contract.Options["timeout"]; ok {
+					var n int
+					if _, err := fmt.Sscanf(v, "%d", &n); err == nil && n > to {
+						to = n
+					}
+				}
+			}
+			r = SolveHard(f, fa, to, o.Seed)
 		} else if o.Tier == "thorough" && r.Status == "unsat" {
 			// independent confirmation by a second solver where one can decide the goal
 			f := writeQuery(o.WorkDir, fmt.Sprintf("%s-p%d", j.Name, i), texts[i])
